@@ -8,6 +8,7 @@ import (
 	"runtime"
 	"strconv"
 	"sync"
+	"sync/atomic"
 	"time"
 
 	"github.com/blugelabs/bluge/index"
@@ -57,6 +58,21 @@ func yieldHook(p string) {
 	default:
 		time.Sleep(1500 * time.Microsecond)
 	}
+	if g := yieldGate.Load(); g != nil {
+		(*g)(p)
+	}
+}
+
+var yieldGate atomic.Pointer[func(point string)]
+
+// SetYieldGate routes every yield point to a scripted-gate function (one instrumented writer per
+// process: child processes of C04 / C15); nil removes it.
+func SetYieldGate(f func(point string)) {
+	if f == nil {
+		yieldGate.Store(nil)
+		return
+	}
+	yieldGate.Store(&f)
 }
 
 // YieldStats: distinct yield points reached, calls, calls that slept.
